@@ -509,7 +509,11 @@ class RawSession:
         assert self.stub is not None
         self.stub.script = script or Script()
         self.stub.calls = []
-        self.w.write(frame(pkt))
+        try:
+            self.w.write(frame(pkt))
+        except (BrokenPipeError, ConnectionError, asyncssh.Error):
+            self.ended = True
+            return None
         try:
             return await self.read_packet(timeout)
         except asyncio.TimeoutError:
